@@ -7,7 +7,8 @@ Obligations
   T            translator: cli/cmdlineparser.cpp (which Settings fields each analysis option of the property's list writes),
                lib/settings.cpp (parseEnabled: --enable values; setCheckLevel), lib/errortypes.h / lib/*.cpp (which severities are
                ever read) -> Gen/OptionUse.lean; the hash fields come from Gen/HashInput.lean (C18's translator)
-  C            CLI option histories on a fixed tree: every run compared with a run with the same options and no build dir (P_impl);
+  C            in-process: real CppCheck::calculateHash under generated Settings == std::hash of the model's toolinfo rendering + tokens;
+               CLI option histories on a fixed tree: every run compared with a run with the same options and no build dir (P_impl);
                every option the tables call uncovered must have a witness that reproduces on the real binary
 """
 import json, os, re, shutil, hashlib
@@ -25,8 +26,8 @@ EXPLANATION = ("Lean: C18's transparency theorem covers histories whose edits ch
                "token stream - except the listed uncovered options, each demonstrated on the real binary (known findings) and proved stale in the "
                "model. That a covered field is rendered unambiguously into toolinfo is validated by CLI option histories, not proved.")
 THEOREMS = ["Cppcheck.Cache." + t for t in (
-    "option_history_transparent_partial", "option_history_transparent_fixed", "options_covered_partial", "options_covered_counterexample",
-    "uncovered_option_counterexample", "option_table_nonempty")]
+    "option_history_transparent_partial", "option_history_transparent_generic", "options_covered_partial", "options_covered_counterexample",
+    "options_covered_legacy_counterexample", "uncovered_option_counterexample", "option_table_nonempty")]
 MODULES = ["Cppcheck.Props.C19"]
 
 Unrecognised = c18.Unrecognised
@@ -177,11 +178,14 @@ def enable_values(repo):
 
 
 def read_severities(repo, sev):
-    """severities some code asks `severity.isEnabled(Severity::x)` about"""
+    """severities some code asks `severity.isEnabled(Severity::x)` about.  A question asked only under `mSettings.debugwarnings &&`
+    (set by --debug-warnings, which is not an analysis option of the property's list) does not count."""
     import glob
     used = set()
     for p in glob.glob(os.path.join(repo, "lib", "*.cpp")) + glob.glob(os.path.join(repo, "lib", "*.h")) + glob.glob(os.path.join(repo, "cli", "*.cpp")):
-        for m in re.finditer(r"severity\.isEnabled\(Severity::(\w+)\)", open(p, encoding="utf-8", errors="replace").read()):
+        text = c18.strip_comments(open(p, encoding="utf-8", errors="replace").read())
+        text = re.sub(r"mSettings\.debugwarnings\s*&&\s*mSettings\.severity\.isEnabled\(Severity::debug\)", "", text)
+        for m in re.finditer(r"severity\.isEnabled\(Severity::(\w+)\)", text):
             used.add(m.group(1))
     return [s for s in sev if s in used]
 
@@ -199,7 +203,7 @@ def extract(repo=None):
             if fields != ["@addEnabled" if name == "--enable=" else "@removeEnabled"]:
                 raise Unrecognised("%s writes %s" % (name, fields))
             for v, fs in vals.items():
-                table.append((name + v, fs))
+                table.append((name + v, fs if name == "--enable=" else [f + "-" for f in fs]))
             continue
         out = []
         for f in fields:
@@ -247,9 +251,266 @@ def translate(ctx):
         return False, "unrecognised shape: %s" % e, None
 
 
+# ---- CLI option histories -------------------------------------------------------------------------------------------------------
+
+CFGS = "".join("#ifdef C%d\nvoid fc%d(void){int a[2]; a[%d]=0;}\n#endif\n" % (k, k, 2 + k % 7) for k in range(14))
+TREE = {
+    "u.c": "#ifdef X\nvoid fu(void){int a[2]; a[5]=0;}\n#endif\n#ifndef X\nint zu(int y){return y/0;}\n#endif\n",
+    "lang.c": "void fl(void*p){ char *c = (char*)p; (void)c; }\n",
+    "plat.c": "int fp(void){ long x = 1L << 40; return (int)x; }\n",
+    "lib.c": "#include <fcntl.h>\nvoid fo(void){ int fd = open(\"a\",0); (void)fd; }\n",
+    "uf.c": "void unused1(void){}\nint main(void){return 0;}\n",
+    "mi.c": "#include \"nothere.h\"\nint fm(void){return 0;}\n",
+    "std.c": "#include <alloca.h>\nvoid fs(int n){ char *p = alloca(n); p[0]=0; }\n",
+    "inc.c": "void fi(int x){ switch(x){ case 1 || 2: break; } }\n",
+    "hdr.c": "#include \"h.h\"\nint fh(void){return h1();}\n",
+    "i1/h.h": "static int h1(void){int a[2]; return a[3];}\n",
+    "i2/h.h": "\nstatic int h1(void){int a[2]; return a[4];}\n",
+    "sup.c": "int fz(int y){return y/0;} // cppcheck-suppress zerodiv\nvoid fa(void){int a[2]; a[6]=0;}\n",
+    "cfgs.c": CFGS,
+    "style.c": "void fy(int *p){ int x = 5; x = 6; if (p) {} *p = x; }\n",
+}
+DIMS = {
+    "--inconclusive": [[], ["--inconclusive"]],
+    "-D": [[], ["-DX"], ["-DX", "-DC3=2"]],
+    "-U": [[], ["-UX"], ["-UC1"]],
+    "-I": [[], ["-Ii1"], ["-Ii2"]],
+    "--std=": [[], ["--std=c89"], ["--std=c11"]],
+    "--language=": [[], ["--language=c"], ["--language=c++"]],
+    "--platform=": [[], ["--platform=unix32"], ["--platform=unix64"]],
+    "--library=": [[], ["--library=posix"]],
+    "--suppress=": [[], ["--suppress=zerodiv"], ["--suppress=arrayIndexOutOfBounds:u.c"], ["--suppress=*:cfgs.c"]],
+    "--inline-suppr": [[], ["--inline-suppr"]],
+    "--max-configs=": [[], ["--max-configs=1"], ["--max-configs=3"]],
+    "--check-level=": [[], ["--check-level=normal"], ["--check-level=exhaustive"], ["--check-level=reduced"]],
+    "--force": [[], ["--force"]],
+    "--enable=": [[], ["--enable=warning"], ["--enable=style"], ["--enable=performance,portability"], ["--enable=information"],
+                  ["--enable=unusedFunction"], ["--enable=missingInclude"], ["--enable=all"],
+                  ["--enable=warning,style,performance,portability,information"],
+                  ["--enable=missingInclude", "--disable=missingInclude"], ["--enable=missingInclude", "--disable=all"],
+                  ["--enable=unusedFunction", "--disable=unusedFunction"], ["--enable=all", "--disable=style"]],
+}
+# which option of the tables explains a stale hit when the two runs differ in a dimension
+KEYPFX = "option-not-in-key:"
+
+
+def enabled_sets(vals):
+    """effect of the --enable/--disable arguments of one option set on (severity flags, checks), as the parser applies them"""
+    sev, chk = set(), set()
+    for v in vals:
+        on = v.startswith("--enable=")
+        for w in v.split("=", 1)[1].split(","):
+            if w == "all":
+                s2, c2 = {"warning", "style", "performance", "portability", "information", "debug"}, {"unusedFunction", "missingInclude"}
+            elif w in ("unusedFunction", "missingInclude"):
+                s2, c2 = set(), {w}
+            else:
+                s2, c2 = {w}, set()
+            if on and w == "style":
+                s2 |= {"warning", "performance", "portability"}
+            if on:
+                sev |= s2; chk |= c2
+            else:
+                sev -= s2; chk -= c2
+    return sev, chk
+
+
+def explain(optsA, optsB):
+    """option names (as in Gen.OptionUse) by which two option sets differ"""
+    names = set()
+    for d in DIMS:
+        a, b = optsA.get(d, []), optsB.get(d, [])
+        if a == b:
+            continue
+        if d != "--enable=":
+            names.add(d); continue
+        (sa, ca), (sb, cb) = enabled_sets(a), enabled_sets(b)
+        for w in sa ^ sb:
+            names.add("--enable=" + w)
+        for w in cb - ca:
+            names.add("--enable=" + w)
+        for w in ca - cb:
+            names.add("--disable=" + w)
+    return names
+
+
+def flat(opts):
+    return [x for d in DIMS for x in opts.get(d, [])]
+
+
+def option_history(ctx, tag, optsets, jobs):
+    """runs over one build directory and the fixed tree; returns per run dict(cached, fresh, rc_c, rc_f, dec)"""
+    work = os.path.join(ctx.tmp, "opt", tag)
+    shutil.rmtree(work, ignore_errors=True)
+    src, bd = os.path.join(work, "src"), os.path.join(work, "bd")
+    os.makedirs(src); os.makedirs(bd)
+    c18.write_tree(src, TREE)
+    files = c18.sources(TREE)
+    runs = []
+    for k, o in enumerate(optsets):
+        j = jobs[k] if isinstance(jobs, list) else jobs
+        shutil.copytree(bd, os.path.join(work, "bd%d" % k))
+        rc_c, cached, dec, other = c18.cppcheck(ctx, src, files, bd="../bd", jobs=j, extra=flat(o))
+        rc_f, fresh, _, other2 = c18.cppcheck(ctx, src, files, extra=flat(o))
+        runs.append(dict(cached=cached, fresh=fresh, rc_c=rc_c, rc_f=rc_f, dec=dec, jobs=j, k=k, work=work, src=src, files=files, other=other + other2))
+    return runs
+
+
+def judge_options(ctx, res, tag, optsets, jobs, runs, uncovered):
+    """P_impl for every run; returns the set of known keys seen"""
+    seen = set()
+    last = {}        # file -> index of the run that analysed it last (whose result the cache holds)
+    for k, r in enumerate(runs):
+        hits = [f for f in r["files"] if r["dec"].get(f, ("", "?"))[1] == "h"]
+        for f in r["files"]:
+            if r["dec"].get(f, ("", "?"))[1] != "h":
+                last[f] = k
+        res.count("jobs:%d" % r["jobs"])
+        res.count("files-reused" if hits else "all-reanalysed")
+        canon = "%s run %d %s" % (tag, k, " ".join(flat(optsets[k])))
+        res.case("opt|" + " ".join(flat(o) and " ".join(flat(o)) or "-" for o in optsets[:k + 1]), k > 0,
+                 dict(tie="cli-option-history", op=canon, impl="%d findings rc=%d" % (len(r["cached"]), r["rc_c"]), model="fresh: %d findings rc=%d" % (len(r["fresh"]), r["rc_f"])))
+        if r["cached"] == r["fresh"] and r["rc_c"] == r["rc_f"]:
+            res.traces_validated += 1
+            continue
+        names = set()
+        for f in hits:
+            names |= explain(optsets[last.get(f, 0)], optsets[k])
+        what = "run %d of option history %s (%s) with --cppcheck-build-dir reports %s, without build dir %s" % (
+            k, tag, " ".join(flat(optsets[k])) or "no options", sorted(set(r["cached"]) - set(r["fresh"]))[:3] or "(nothing extra)",
+            sorted(set(r["fresh"]) - set(r["cached"]))[:3] or "(nothing extra)")
+        payload = dict(optsets=optsets[:k + 1], jobs=(jobs[:k + 1] if isinstance(jobs, list) else jobs), cached=r["cached"], fresh=r["fresh"],
+                       rc_cached=r["rc_c"], rc_fresh=r["rc_f"], changed=sorted(names), replay_cmd="./check.py C19 --replay <this file>")
+        expl = sorted(n for n in names if n in uncovered)
+        if not expl:
+            # the summaries channel of C18 (return summaries of the previous run are not part of the key)?
+            bdc = os.path.join(r["work"], "nosum%d" % k)
+            shutil.rmtree(bdc, ignore_errors=True)
+            shutil.copytree(os.path.join(r["work"], "bd%d" % k), bdc)
+            for f in os.listdir(bdc):
+                if re.search(r"\.s\d+$", f):
+                    os.remove(os.path.join(bdc, f))
+            rc2, cached2, _, _ = c18.cppcheck(ctx, r["src"], r["files"], bd=bdc, jobs=r["jobs"], extra=flat(optsets[k]))
+            if (cached2, rc2) == (r["fresh"], r["rc_f"]):
+                res.violation(what, payload, concrete=True, key=c18.KEY_SUMM)
+                seen.add(c18.KEY_SUMM)
+            else:
+                res.violation(what, payload, concrete=True, key=None)
+            continue
+        for n in expl:
+            res.violation(what, payload, concrete=True, key=KEYPFX + n)
+            seen.add(KEYPFX + n)
+            res.count("known:" + n)
+    return seen
+
+
+def gen_option_history(rng, n):
+    cur = {d: [] for d in DIMS}
+    for d in rng.sample(list(DIMS), rng.choice([0, 1, 2, 3])):
+        cur[d] = rng.choice(DIMS[d])
+    out = [dict(cur)]
+    for _ in range(n - 1):
+        r = rng.random()
+        if r < 0.3:
+            pass                                    # same options again: everything is served from the cache
+        elif r < 0.4 and len(out) >= 2:
+            cur = dict(out[-2])                     # back to the options before the last change
+        else:
+            for d in rng.sample(list(DIMS), rng.choice([1, 1, 1, 2])):
+                cur[d] = rng.choice([v for v in DIMS[d] if v != cur[d]])
+        out.append(dict(cur))
+    return out
+
+
+def py_uncovered(table, used, hash_fields):
+    """the options the tables call uncovered under the fields hashed today (same rule as Cache.fieldCovered)"""
+    role = {"suppressions": None, "includePaths": None, "inlineSuppressions": "suppressions", "vfOptions": "checkLevel", "checks:unusedFunction-": None}
+    def cov(f):
+        base = f[:-1] if f.endswith("-") else f
+        if base in hash_fields:
+            return True
+        if f in role:
+            return role[f] is None or role[f] in hash_fields
+        return f.startswith("severity:") and base not in ["severity:" + u for u in used]
+    return [n for n, fs in table if not all(cov(f) for f in fs)]
+
+
+def hash_fields_of(items):
+    out = []
+    for t in items:
+        k = t[0]
+        if k == "productOrVersion": out.append("cppcheckCfgProductName")
+        elif k == "sevFlag": out.append("severity:" + t[1])
+        elif k in ("boolFlag", "strField", "intField", "enumField", "strSetField", "callField"): out.append(t[1])
+        elif k == "addonInfos": out.append("addonInfos")
+        elif k == "supprDump": out.append("suppressions")
+        elif k == "groupFlag": out.append(t[1] + ":" + t[2])
+    return out
+
+
+def load_corpus():
+    p = os.path.join(core.VERIF, "corpus", "C19", "cases.json")
+    return json.load(open(p)) if os.path.exists(p) else []
+
+
+def cli_option_histories(ctx, res, table, used, items, n, nruns):
+    rng = ctx.rng
+    uncovered = set(py_uncovered(table, used, hash_fields_of(items)))
+    res.extra["uncovered_options_today"] = sorted(uncovered)
+    todo = []
+    for c in load_corpus():
+        todo.append(("corpus-" + c["name"], c["optsets"], c.get("jobs", 1), c))
+    for h in range(n):
+        todo.append(("o%d" % h, gen_option_history(rng, nruns), rng.choice([1, 1, 1, 2]), None))
+    from concurrent.futures import ThreadPoolExecutor
+    with ThreadPoolExecutor(max_workers=3) as ex:
+        allruns = list(ex.map(lambda t: option_history(ctx, t[0], t[1], t[2]), todo))
+    demonstrated = set()
+    for (tag, optsets, jobs, c), runs in zip(todo, allruns):
+        seen = judge_options(ctx, res, tag, optsets, jobs, runs, uncovered)
+        if c:
+            res.extra.setdefault("witnesses", {})[c["name"]] = "reproduces" if c["key"] in seen else "does not reproduce"
+            if c["key"] in seen:
+                demonstrated.add(c["key"][len(KEYPFX):])
+    missing = sorted(uncovered - demonstrated)
+    res.oblig("every-uncovered-option-has-a-failing-input", not missing, "correspondence",
+              "" if not missing else "the tables say these options do not reach the key, but no witness of corpus/C19 reproduces on the real binary: %s" % missing)
+
+
+def replay(ctx, res, rp):
+    table, used = extract()
+    items = c18.extract()[0]
+    uncovered = set(py_uncovered(table, used, hash_fields_of(items)))
+    runs = option_history(ctx, "replay", rp["optsets"], rp.get("jobs", 1))
+    bad = 0
+    for k, r in enumerate(runs):
+        same = r["cached"] == r["fresh"] and r["rc_c"] == r["rc_f"]
+        print("run %d [%s]: %s" % (k, " ".join(flat(rp["optsets"][k])), "same as a run without build dir" if same else "DIFFERS"))
+        if not same:
+            bad += 1
+            print("   only with build dir   : %s" % sorted(set(r["cached"]) - set(r["fresh"])))
+            print("   only without build dir: %s" % sorted(set(r["fresh"]) - set(r["cached"])))
+    print("replay: %d run(s) differ" % bad)
+    return 1 if bad else 0
+
+
 def run(ctx, res):
+    import time
+    thorough = ctx.tier == "thorough"
+    t = time.time()
     ok, detail, ex = translate(ctx)
     res.oblig("T:option-use-translation", ok, "translation", detail)
     ok18, detail18, ex18 = c18.translate(ctx)
     res.oblig("T:hash-input-translation", ok18, "translation", detail18)
     core.prove(ctx, res, MODULES, THEOREMS)
+    T = {"prove": round(time.time() - t, 1)}; t = time.time()
+    # the toolinfo chain itself: real CppCheck::calculateHash against std::hash of the model's rendering (C18's in-process tie;
+    # the generated settings vary every option field of the chain)
+    drv = ctx.driver("drv_c18")
+    exe = ctx.harness("c18")
+    c18.key_cases(ctx, res, exe, drv, 300 if thorough else 80)
+    T["key"] = round(time.time() - t, 1); t = time.time()
+    if ex and ex18:
+        cli_option_histories(ctx, res, ex[0], ex[1], ex18[0], 40 if thorough else 8, 6 if thorough else 5)
+    T["cli"] = round(time.time() - t, 1)
+    res.extra["timings_s"] = T
